@@ -136,6 +136,15 @@ class StubTimeout(Exception):
     pass
 
 
+# as in requests: the failures a client meets on the way to a proxy are subclasses of ConnectionError
+class StubSSLError(StubConnectionError):
+    pass
+
+
+class StubConnectTimeout(StubConnectionError, StubTimeout):
+    pass
+
+
 class StubResponse:
     def __init__(self, status=200, headers=None, tag=""):
         self.status_code = status
@@ -339,6 +348,10 @@ def simulate(run):
                 return StubResponse(200, {"x-lunar-error": "3"}, "gw-error")
             if out == "connection-error":
                 raise StubConnectionError("simulated connection error to the gateway")
+            if out == "connection-error-ssl":
+                raise StubSSLError("simulated TLS failure towards the gateway")
+            if out == "connection-error-connect-timeout":
+                raise StubConnectTimeout("simulated connect timeout towards the gateway")
             if out == "app-exception":
                 raise ValueError("application error " + plan.get("tag", ""))
             if out == "timeout":
@@ -443,7 +456,7 @@ def simulate(run):
         # R4 exceptions / R2 bookkeeping
         if via_gateway:
             run.nontrivial = True
-            if outcome in ("error-header", "connection-error"):
+            if outcome == "error-header" or outcome.startswith("connection-error"):
                 run.fault("gateway_failure")
                 run.rule("R4")
                 if got_exc is not None:
@@ -471,12 +484,13 @@ def simulate(run):
                     run.violate("R4", "application-exception-swallowed", "a direct-call application exception was swallowed")
             elif got_exc is not None:
                 run.violate("R4", "spurious-exception", "a direct call raised %r" % (got_exc,))
-        judge_state(via_gateway and outcome in ("error-header", "connection-error"))
+        judge_state(via_gateway and (outcome == "error-header" or outcome.startswith("connection-error")))
         return via_gateway
 
     hosts_pub = ["api.pub.com", "edge.net", "ten.net", "twelve.org", "8.8.8.8", "172.15.0.1"]
     hosts_all = list(DNS.keys()) + LITERALS
-    outcomes = ["ok", "error-header", "connection-error", "app-exception", "timeout", "keyboard-interrupt"]
+    outcomes = ["ok", "error-header", "connection-error", "app-exception", "timeout", "keyboard-interrupt",
+                "connection-error-ssl", "connection-error-connect-timeout"]
     def fatal():
         return any(v["sig"] != "failure-count-cleared-by-call-that-bypassed-the-gateway" for v in run.viol)
 
@@ -495,7 +509,7 @@ def simulate(run):
         kind = tp.weighted([10, 3, 2])
         if kind == 0:
             host = hosts_pub[tp.choose(len(hosts_pub))] if tp.chance(3, 4) else hosts_all[tp.choose(len(hosts_all))]
-            outcome = outcomes[tp.weighted([5, 4, 4, 1, 1, 1])]
+            outcome = outcomes[tp.weighted([5, 4, 3, 1, 1, 1, 1, 1])]
             direct = "app-exception" if tp.chance(1, 10) else "ok"
             one_call(host, outcome, direct, "op%d" % op)
         elif kind == 1:
